@@ -3076,7 +3076,7 @@ def reactive_scenarios(rng, tier, prefix):
     return out
 
 
-REACTIVE = ('C05', 'C06', 'C08', 'C09', 'C10', 'C15')
+REACTIVE = ('C05', 'C06', 'C07', 'C08', 'C09', 'C10', 'C11', 'C12', 'C13', 'C15')
 
 
 def with_common(fam, prefix, **kw):
